@@ -65,7 +65,8 @@ def gen(rng, max_n=8, p_sel=0.3, p_fail=0.06, mixed=True, indexed_flags=True):
         flag = None
         r = rng.random()
         if r < 0.12:
-            flag = ["c", rng.random() < 0.5]
+            # a CONSTANT flag: any object, judged by its truthiness (None, 0 and "" deactivate like False does)
+            flag = ["c", rng.choice([True, False, True, False, None, 0, "", 1, "on"])]
         elif r < 0.24 and i > 0:
             flag = ["n", rng.randrange(i)]
         specs.append(dict(preds=preds[i], prio=rng.choice([0, 0, 1, 2, 3, -1, 5, -3]), seq=rng.random() < 0.25,
@@ -97,6 +98,7 @@ def gen(rng, max_n=8, p_sel=0.3, p_fail=0.06, mixed=True, indexed_flags=True):
             s_["setup"] = s_["flag"] is None and all(specs[p_].get("setup") for p_ in s_["preds"]) and rng.random() < 0.7
         if sum(1 for s_ in specs if s_.get("setup")) >= 1:
             sc["op"] = "setup"
+            sc["setup_via_executor"] = rng.random() < 0.4
         else:
             for s_ in specs:
                 s_.pop("setup", None)
@@ -106,6 +108,9 @@ def gen(rng, max_n=8, p_sel=0.3, p_fail=0.06, mixed=True, indexed_flags=True):
         # must not depend on it)
         mark_debug(rng, sc)
     sc["tiny_loop_executor"] = sc["is_async"] and rng.random() < 0.3
+    pooled_ = [i_ for i_, s_ in enumerate(specs) if s_["res"] != "m" and s_["flag"] is None and not s_.get("dbg")]
+    if pooled_ and sc.get("op") != "setup" and sc["sel"] is None and n >= 2 and rng.random() < 0.1:
+        sc["after_failed_call"] = dict(fail0=rng.choice(pooled_))
     # the instance may have a past: one plain call before the executor is created / the call that is observed
     sc["warm"] = sc.get("op") != "setup" and rng.random() < 0.2
     sc["profile"] = rng.random() < 0.2      # TAWAZI_PROFILE_ALL_NODES: a documented option that must not change anything observed here
@@ -206,6 +211,16 @@ def directed(rng):
             specs.append(node(preds=[0], prio=rng.choice([0, 5]), res="t"))
         out.append(dict(n=len(specs), specs=specs, maxc=rng.choice([1, 2, 3]), is_async=rng.random() < 0.3, sel=None, nested=rng.random() < 0.3,
                         run_debug=True, debug_at_build=rng.random() < 0.5, script=dict(seed=rng.randrange(1 << 30))))
+    for _ in range(6):
+        # the observed call follows, on the same thread, a call that FAILED while sibling nodes were still running: the
+        # first root fails (first call only), the others stay in flight; the next call must get its full parallelism
+        kind = rng.choice(["t", "t", "a"])
+        k_ = rng.choice([3, 4])
+        specs = [node(prio=9, res=kind)] + [node(prio=rng.choice([1, 2, 3]), res=rng.choice([kind, kind, "t", "a"])) for _i in range(k_)]
+        if rng.random() < 0.5:
+            specs.append(node(preds=[1], prio=0, res="t"))
+        out.append(dict(n=len(specs), specs=specs, maxc=rng.choice([2, 3]), is_async=rng.random() < 0.3, sel=None, nested=False,
+                        after_failed_call=dict(fail0=0), script=dict(seed=rng.randrange(1 << 30))))
     for _ in range(4):
         # a tag carried by a non-sequential node and (later in the description) a sequential one, reconfigured through the tag
         # by an entry that states the priority only: both keep their own sequential flag
@@ -370,7 +385,7 @@ def make_node(i, s):
     def body(*args, **kw):
         args = tuple(args) + tuple(kw[k_] for k_ in sorted(kw))
         control.node_enter(i, args)
-        if s["fail"]:
+        if s["fail"] or FAIL0[0] == i:
             raise Boom(i)
         return value(i, s, args)
 
@@ -383,6 +398,7 @@ def make_node(i, s):
     return node
 
 
+FAIL0 = [None]    # the node that fails in the EARLIER call of an "after_failed_call" scenario (None otherwise)
 PREFIX = [""]     # id prefix of the scenario's nodes in the DAG that is run ("inner." when the scenario is nested)
 
 
@@ -400,7 +416,7 @@ def build_handbuilt(sc):
 
         def body(*args, i=i, s=s):
             control.node_enter(i, args)
-            if s["fail"]:
+            if s["fail"] or FAIL0[0] == i:
                 raise Boom(i)
             return value(i, s, args)
         body.__name__ = body.__qualname__ = "impl_of_node_%d" % i
@@ -547,7 +563,9 @@ def _run_scenario(sc, timeout):
         real_cp = {norm_id(k): g_.compound_priority[k] for k in list(g_.nodes)}
         script = control.Script(decisions=sc["script"]["decisions"]) if "decisions" in sc["script"] else \
             control.Script(rng=random.Random(sc["script"]["seed"]))
-        R, outcome = control.run_controlled(lambda: arun(sc, d.setup) if sc["is_async"] else d.setup(), script, timeout=timeout)
+        # setup() of the DAG itself, or of an executor object of it (the same setup nodes: the executor selects nothing)
+        su = d.executor().setup if sc.get("setup_via_executor") else d.setup
+        R, outcome = control.run_controlled(lambda: arun(sc, su) if sc["is_async"] else su(), script, timeout=timeout)
         return dict(run=R, outcome=outcome, selected=graph_nodes, real_cp=real_cp, script_trace=script.trace)
     if sc.get("warm") and not sc.get("reconf"):
         control.run_controlled(lambda: arun(sc, d) if sc["is_async"] else d(),
@@ -573,7 +591,32 @@ def _run_scenario(sc, timeout):
         script = control.Script(decisions=sc["script"]["decisions"])
     else:
         script = control.Script(rng=random.Random(sc["script"]["seed"]))
-    R, outcome = control.run_controlled(call, script, timeout=timeout)
+    afc = sc.get("after_failed_call") if sel is None else None
+    if afc is not None:
+        # the observed call comes AFTER a call of the same object, on the same thread, that FAILED (node `fail0` raised) —
+        # possibly with sibling nodes still running: nothing of the failed call (its workers, its bookkeeping) may weigh
+        # on the next one
+        plain_call = call
+
+        def call():     # noqa: F811
+            FAIL0[0] = afc["fail0"]
+            try:
+                plain_call()
+            except BaseException:  # noqa: BLE001
+                pass
+            finally:
+                FAIL0[0] = None
+            control.tls.run.ev("mark")
+            return plain_call()
+    try:
+        R, outcome = control.run_controlled(call, script, timeout=timeout)
+    finally:
+        FAIL0[0] = None
+    if afc is not None:
+        marks = [k_ for k_, e_ in enumerate(R.log) if e_[1] == "mark"]
+        if marks:
+            R.first_call_log = R.log[:marks[0]]
+            R.log = R.log[marks[0] + 1:]
     selected = whole_call_selection(sc) if graph_nodes is None else graph_nodes
     return dict(run=R, outcome=outcome, selected=selected, real_cp=real_cp, script_trace=script.trace)
 
@@ -848,12 +891,17 @@ def monitors(sc, obs):
                 want = 1 if (i in selected and active[i]) else 0
                 if counts.get(i, 0) != want:
                     bad("C03", "wrong-execution-count", node=i, got=counts.get(i, 0), want=want)
+                    if sc.get("nested"):
+                        bad("C20", "nested-dag-runs-other-nodes-than-its-inlined-body", node=i, got=counts.get(i, 0), want=want,
+                            debug=bool(specs[i].get("dbg")), run_debug=bool(sc.get("run_debug")), debug_at_build=bool(sc.get("debug_at_build")))
                     if want == 1:
                         bad("C09", "returned-with-node-not-run", node=i)
                     if specs[i].get("dbg"):
                         bad("C13", "debug-node-execution-count", node=i, got=counts.get(i, 0), want=want, flag=bool(sc.get("run_debug")))
             if sc.get("op") != "setup" and list(outcome[1]) != vals:
                 bad("C01", "wrong-return-value", got=outcome[1], want=vals)
+                if sc.get("nested"):
+                    bad("C20", "nested-dag-returns-other-values-than-its-inlined-body", got=outcome[1], want=vals)
                 if any(s_.get("dbg") for s_ in specs) and \
                         any(g_ != w_ for g_, w_, s_ in zip(outcome[1], vals, specs) if not s_.get("dbg")):
                     bad("C13", "production-value-differs-in-a-dag-with-debug-nodes", got=outcome[1], want=vals)
@@ -887,3 +935,102 @@ def structural_hash(sc):
     key = dict(sc)
     key = {k: v for k, v in key.items() if k != "script"}
     return hashlib.sha1(json.dumps(key, sort_keys=True).encode()).hexdigest()[:12]
+
+
+# ---------------------------------------------------------------------------------------------
+# C02 across a sub-DAG call: the value a parameter is SUPPLIED with is a dependency of the inner nodes that use it
+# ---------------------------------------------------------------------------------------------
+def nested_supply(rng):
+    """An inner DAG `inner(p=<default>, q=<default>)` whose nodes use its parameters, called inside an outer DAG that supplies
+    p from a (slow) producer node, a constant different from the default, or not at all.  The producer stays inside its
+    function until a consumer has been entered or a short time has passed: a consumer entered before the producer returned
+    is caught in the act.  Returns (description of the case, problems)."""
+    import threading as _th
+    from tawazi import dag as _dag
+    how_p = rng.choice(["node", "node", "const", "omitted"])
+    how_q = rng.choice(["node", "const", "omitted", "omitted"])
+    maxc = rng.choice([1, 2, 3])
+    is_async = rng.random() < 0.3
+    kinds = {k_: rng.choice(list(RES)) for k_ in ("prod", "prod2", "c1", "c2")}
+    prios = {k_: rng.choice([0, 1, 5]) for k_ in ("prod", "prod2", "c1", "c2")}
+    consumer_entered = _th.Event()
+    log, lock = [], _th.Lock()
+    returned = set()
+
+    def ev(*a):
+        with lock:
+            log.append(a)
+
+    def prod():
+        ev("enter", "prod")
+        consumer_entered.wait(0.08)
+        ev("exit", "prod")
+        returned.add("prod")
+        return ("produced", 1)
+
+    def prod2():
+        ev("enter", "prod2")
+        consumer_entered.wait(0.04)
+        ev("exit", "prod2")
+        returned.add("prod2")
+        return ("produced", 2)
+
+    def c1(p):
+        ev("enter", "c1", p, frozenset(returned))
+        consumer_entered.set()
+        return ("c1", p)
+
+    def c2(p, q):
+        ev("enter", "c2", (p, q), frozenset(returned))
+        consumer_entered.set()
+        return ("c2", p, q)
+    for f_ in (prod, prod2, c1, c2):
+        f_.__qualname__ = f_.__name__
+    xprod, xprod2 = (xn(f_, resource=RES[kinds[f_.__name__]], priority=prios[f_.__name__]) for f_ in (prod, prod2))
+    xc1, xc2 = (xn(f_, resource=RES[kinds[f_.__name__]], priority=prios[f_.__name__]) for f_ in (c1, c2))
+
+    def inner(p=("default", "p"), q=("default", "q")):
+        return xc1(p), xc2(p, q)
+    inner_d = _dag(inner)
+
+    def outer():
+        args = []
+        if how_p == "node":
+            args.append(xprod())
+        elif how_p == "const":
+            args.append(("const", "p"))
+        if how_q != "omitted" and how_p != "omitted":
+            args.append(xprod2() if how_q == "node" else ("const", "q"))
+        return inner_d(*args)
+    outer.__qualname__ = outer.__name__ = "outer"
+    d = threadsafe_make_dag(outer, maxc, is_async)
+    want_p = dict(node=("produced", 1), const=("const", "p"), omitted=("default", "p"))[how_p]
+    want_q = ("default", "q") if (how_q == "omitted" or how_p == "omitted") else dict(node=("produced", 2), const=("const", "q"))[how_q]
+    case = dict(p=how_p, q=how_q, maxc=maxc, is_async=is_async, resources=kinds, priorities=prios)
+    box = {}
+
+    def target():
+        try:
+            box["r"] = asyncio.run(d()) if is_async else d()
+        except BaseException as e:  # noqa: BLE001
+            box["e"] = e
+    th = _th.Thread(target=target, daemon=True)
+    th.start()
+    th.join(20)
+    problems = []
+    if th.is_alive():
+        return case, ["the call did not return"]
+    if "e" in box:
+        return case, ["the call raised %s: %s" % (type(box["e"]).__name__, str(box["e"])[:120])]
+    for e in log:
+        if e[0] == "enter" and e[1] in ("c1", "c2"):
+            got, done = e[2], e[3]
+            want = want_p if e[1] == "c1" else (want_p, want_q)
+            needs = ({"prod"} if how_p == "node" else set()) | ({"prod2"} if e[1] == "c2" and want_q == ("produced", 2) else set())
+            if not needs <= done:
+                problems.append("%s entered before %s returned" % (e[1], sorted(needs - done)))
+            if got != want:
+                problems.append("%s received %r, the call supplies %r" % (e[1], got, want))
+    if box.get("r") != (("c1", want_p), ("c2", want_p, want_q)):
+        problems.append("returned %r" % (box.get("r"),))
+    return case, problems
